@@ -234,7 +234,7 @@ def one_history(rng, res, intern, stream, label, fresh):
       if hop[0] not in ("suspend_begin", "suspend_end"):
         oracle_step(cfg, before_args, before_hist, before_tags, tracking_on, hop, outcome, problems,
                     clean=clean)
-      obs = (f"(mk_obs {l1.g_out(outcome)} "
+      obs = (f"(mk_obs {l1.g_out(outcome, hop[0] == 'edit' and hop[1][0] in ('getattr', 'getitem'))} "
              f"{l1.g_store([[k, l1.enc(v)] for k, v in cfg.__arguments__.items()], intern)} "
              f"{g_tagmap(intern, cfg)} {g_hist(intern, cfg, base)})")
       steps_g.append(g_pair(g_hop(intern, hop), obs))
